@@ -268,3 +268,24 @@ func TestVerifReplay_InternalSettleOtherInvoice(t *testing.T) {
 		t.Fatalf("CONFIRMED: melting %d sat of a foreign invoice with the same payment hash marked the unpaid %d sat mint quote PAID", mq.Amount, big.Amount)
 	}
 }
+
+// The background "invoice settled" notification arriving after the quote was
+// issued must not make the quote mintable again.
+func TestVerifReplay_LateSettledNotification(t *testing.T) {
+	ln := &vLN{FakeBackend: &lightning.FakeBackend{}, subGate: make(chan struct{})}
+	m := vNewMint(t, 0, ln)
+	q, err := m.RequestMintQuote(nut04.PostMintQuoteBolt11Request{Amount: 8, Unit: "sat"})
+	if err != nil {
+		t.Fatal(err)
+	}
+	o1 := vOutputs(t, m, []uint64{8})
+	if _, err := m.MintTokens(nut04.PostMintBolt11Request{Quote: q.Id, Outputs: o1.bms}); err != nil {
+		t.Fatalf("first issuance: %v", err)
+	}
+	close(ln.subGate) // the notification fires late
+	time.Sleep(300 * time.Millisecond)
+	o2 := vOutputs(t, m, []uint64{8})
+	if _, err := m.MintTokens(nut04.PostMintBolt11Request{Quote: q.Id, Outputs: o2.bms}); err == nil {
+		t.Fatalf("CONFIRMED: quote issued twice for one payment (late settled notification reopened an ISSUED quote)")
+	}
+}
